@@ -165,6 +165,25 @@ extern "C" void harness_separators_and_history()  /* vf: bounds=a_op1_b_op2_c_ov
     vf_reach("end");
 }
 
+// identifiers at the lexer's length limit (4000 characters): the name in the tree is the name that was written, or the text is rejected
+extern "C" void harness_long_identifiers()  /* vf: bounds=declared_name_of_3999..4001_characters_and_used_name_of_3999..4002_characters(same_letters,so_one_is_a_prefix_of_the_other);used_as_operand_of_a_binary_operator reach=end */
+{
+    int dl = vf_range("!declared_length", 3999, 4001), ul = vf_range("!used_length", 3999, 4002);
+    Ctx cx;
+    std::string d(dl, 'a'), u(ul, 'a');
+    size_t e0 = cx.declare(("int " + d + " = 1; int b;").c_str());
+    size_t n0 = cx.nerr();
+    expression_t e = cx.expr((u + " + b").c_str());
+    bool rejected = cx.nerr() != n0 || e.empty();
+    vf_notei("declaration_errors", (long)e0); vf_notei("rejected", rejected);
+    if (!rejected) {
+        vf_assert(e.get_kind() == PLUS && e.get_size() == 2 && e.get(0).get_kind() == IDENTIFIER, "tree-shape");
+        if (e.get_kind() == PLUS && e.get(0).get_kind() == IDENTIFIER) vf_assert(e.get(0).get_symbol().get_name() == u, "identifier-in-the-tree-is-the-one-written");
+    }
+    if (dl <= 4000 && ul == dl && e0 == 0) vf_assert(!rejected, "identifier-within-the-limit-accepted");
+    vf_reach("end");
+}
+
 // ---- literals
 extern "C" void harness_int_literals()  /* vf: bounds=decimal_literals_prefix+2_symbolic_digits_around_2^31_and_2^32,9..13_digits,with_and_without_leading_zeros;exact_value_or_diagnostic;-2147483648_is_INT_MIN */
 {
